@@ -109,7 +109,8 @@ def opC19Case (j : Lean.Json) : Lean.Json :=
   let c := cardOf (String.ofList (getStr j "card"))
   let i64n := getBool j "int64_number"
   let r := rulesOf (j.getObjValD "rules")
-  let implSchema := if getBool j "json_format" then Impl.fieldSchemaJson k c i64n r else Impl.fieldSchema k c i64n r
+  let nl := getBool j "nullable"
+  let implSchema := if getBool j "json_format" then Impl.fieldSchemaJsonN nl k c i64n r else Impl.fieldSchemaN nl k c i64n r
   let real := ofWire (j.getObjValD "real_schema")
   let hasReal := match j.getObjVal? "real_schema" with | .ok .null => false | .ok _ => true | .error _ => false
   let probes := (getArr j "probes").map valueOf
